@@ -19,14 +19,15 @@ CONSTANTS Emit
 
 Methods == {"tempo", "pt+dynamics", "mftempo", "tebd", "gibbs"}
 Mems    == {"full", "dkmax", "dkmax+addcorr"}
-Systems == {"static", "timedep", "dissipative"}
+Systems == {"static", "timedep", "dissipative", "defective"}     \* "defective": a decay ladder with equal rates (the Liouvillian is not diagonalisable)
 Inits   == {"pure", "mixed", "rankdef"}
 Couplings == {"diagonal", "real", "complex", "degenerate"}     \* coupling operator diagonal / real non-diagonal / complex Hermitian / diagonal with a repeated eigenvalue
 
 Valid(c) ==
     /\ (c.method = "tebd" => (c.mem = "full" /\ ~c.unique))
     /\ (c.method = "gibbs" => (c.mem = "full" /\ ~c.unique /\ c.sys = "static" /\ c.init = "mixed" /\ c.temp = 1))
-    /\ (c.method = "mftempo" => c.sys # "static")
+    /\ (c.method = "mftempo" => c.sys \notin {"static", "defective"})
+    /\ (c.sys = "defective" => (c.d = 3 /\ c.method \in {"tempo", "pt+dynamics", "tebd"}))
     /\ (c.d = 3 => c.alpha # 3)                \* strong coupling only for qubits (cost)
     /\ (c.method = "gibbs" => c.coupling \in {"diagonal", "degenerate"})          \* GibbsTempo supports diagonal couplings only
     /\ (c.file => c.method \in {"pt+dynamics", "tebd"})          \* file-backed process tensors
